@@ -1112,6 +1112,31 @@ theorem docOK_sample : DocOK sampleDoc = true ∧ plainHrefs sampleDoc = true
     ∧ (names (save sampleDoc)).length = 19 := by decide
 
 
+/-- a sub-document (folder "/Object 1") that carries an extra named meta.xml — what `load` makes of "Object 1/meta.xml" — with
+    an object of its own that has a picture -/
+def subWithOwnMeta : Doc :=
+  ⟨1, sOdt, false, [], none, [⟨sMeta, sTextXml, some [60]⟩], (sSlash ++ objPrefix 1).dropLast,
+    [⟨2, sOdt, false, [⟨sPictures ++ [97], .image [1], [105]⟩], none, [], (sSlash ++ objPrefix 1 ++ objPrefix 1).dropLast, []⟩]⟩
+
+/-- **finding KF-C03-4** (`sig=subdocument-with-reserved-extra-saved-on-its-own`): saved on its own, the sub-document is a
+    package root: `save` generates meta.xml AND writes the extra of that name (`DocOK` is false: meta.xml is reserved for
+    the root).  Everything else is right for a document whose folder is not "": its nested object and the picture are stored
+    relative to it ("Object 1/…"), not under its absolute folder. -/
+theorem finding_subdocument_own_meta :
+    DocOK subWithOwnMeta = false ∧ (names (save subWithOwnMeta)).count sMeta = 2
+    ∧ (names (save subWithOwnMeta)).contains (objPrefix 1 ++ sPictures ++ [97]) = true
+    ∧ (names (save subWithOwnMeta)).contains (objPrefix 1 ++ objPrefix 1 ++ sPictures ++ [97]) = false := by
+  decide
+
+/-- without the extra the same sub-document saved on its own is well-formed: the theorems (`names_nodup`, `manifest_nodup`,
+    `pictures_present` …) are stated for any `d.folder`, with `d.folder.length` as the offset -/
+theorem subdocument_on_its_own_sample :
+    let d : Doc := ⟨1, sOdt, false, [], none, [], (sSlash ++ objPrefix 1).dropLast,
+      [⟨2, sOdt, false, [⟨sPictures ++ [97], .image [1], [105]⟩], none, [], (sSlash ++ objPrefix 1 ++ objPrefix 1).dropLast, []⟩]⟩
+    DocOK d = true ∧ names (save d) = [sMimetype, sStyles, sContent, sMeta, objPrefix 1 ++ sStyles, objPrefix 1 ++ sContent,
+      objPrefix 1 ++ sPictures ++ [97], sManifestPath] := by
+  decide
+
 /-! ### load: every document it builds, from ANY package, is well-formed -/
 
 theorem dictSet_keys (d : List (Str × Str)) (k v : Str) :
